@@ -3,6 +3,7 @@ package main
 // Query construction and solver back ends (z3 4.8.12, z3 5.1.0, cvc5 1.0.3).
 
 import (
+	"runtime"
 	"bytes"
 	"context"
 	"fmt"
@@ -196,11 +197,18 @@ func (tr *Tr) discharge(cfg *SolverCfg, workers int, keep func(o *Obligation) bo
 			ccfg.TimeoutMs = 3000
 		}
 		ccfg.Race = false
-		runPool(cands, workers, func(i int, o *Obligation) {
-			q := pre + fmt.Sprintf("(assert (and %s (not %s)))\n", o.Guard, o.Goal)
-			r := solveFast(q, &ccfg, fmt.Sprintf("h%d_%d_%d", round, i, os.Getpid()))
-			o.Result, o.Solver, o.TimeMs = r.status, r.solver, r.ms
-		})
+		as := make([]string, len(cands))
+		for i, o := range cands {
+			as[i] = fmt.Sprintf("(assert (and %s (not %s)))\n", o.Guard, o.Goal)
+		}
+		t0 := time.Now()
+		br := solveBatch(pre, as, &ccfg, 2000, fmt.Sprintf("h%d", round))
+		for i, o := range cands {
+			o.Result, o.Solver, o.TimeMs = br[i], "z3-new", time.Since(t0).Milliseconds()/int64(len(cands)+1)
+			if o.Result == "" {
+				o.Result = "unknown"
+			}
+		}
 		dropped := false
 		for _, o := range cands {
 			if o.Result != "unsat" && o.Cand.Alive {
@@ -232,6 +240,29 @@ func (tr *Tr) discharge(cfg *SolverCfg, workers int, keep func(o *Obligation) bo
 			continue
 		}
 		todo = append(todo, o)
+	}
+	// first pass: incremental batches; whatever is not unsat is retried standalone below
+	if !cfg.Race {
+		as := make([]string, len(todo))
+		for i, o := range todo {
+			as[i] = fmt.Sprintf("(assert (and %s (not %s)))\n", o.Guard, o.Goal)
+		}
+		t0 := time.Now()
+		bt := cfg.TimeoutMs
+		if bt > 4000 {
+			bt = 4000
+		}
+		br := solveBatch(pre, as, cfg, bt, "main")
+		per := time.Since(t0).Milliseconds() / int64(len(todo)+1)
+		var rest []*Obligation
+		for i, o := range todo {
+			if br[i] == "unsat" {
+				o.Result, o.Solver, o.TimeMs = "unsat", "z3-new", per
+			} else {
+				rest = append(rest, o)
+			}
+		}
+		todo = rest
 	}
 	runPool(todo, workers, func(i int, o *Obligation) {
 		q := pre + fmt.Sprintf("(assert (and %s (not %s)))\n", o.Guard, o.Goal)
@@ -279,3 +310,71 @@ func runPool[T any](items []T, workers int, f func(i int, it T)) {
 	close(ch)
 	wg.Wait()
 }
+
+// solveBatch decides many queries that share one prelude with incremental z3 processes
+// (push/pop); anything not answered unsat is left for a standalone retry by the caller.
+func solveBatch(pre string, asserts []string, cfg *SolverCfg, timeoutMs int, tag string) []string {
+	res := make([]string, len(asserts))
+	if len(asserts) == 0 {
+		return res
+	}
+	chunks := runtimeNumCPU()
+	if chunks > len(asserts) {
+		chunks = len(asserts)
+	}
+	per := (len(asserts) + chunks - 1) / chunks
+	var wg sync.WaitGroup
+	for ci := 0; ci < chunks; ci++ {
+		lo, hi := ci*per, (ci+1)*per
+		if lo >= len(asserts) {
+			break
+		}
+		if hi > len(asserts) {
+			hi = len(asserts)
+		}
+		wg.Add(1)
+		go func(lo, hi int) {
+			defer wg.Done()
+			var b strings.Builder
+			b.WriteString(pre)
+			for i := lo; i < hi; i++ {
+				fmt.Fprintf(&b, "(push 1)\n%s(check-sat)\n(pop 1)\n", asserts[i])
+			}
+			file := filepath.Join(cfg.Scratch, fmt.Sprintf("b%d_%s_%d.smt2", atomic.AddInt64(&queryCounter, 1), tag, lo))
+			os.WriteFile(file, []byte(b.String()), 0o644)
+			defer func() {
+				if os.Getenv("GOVC_KEEP") == "" {
+					os.Remove(file)
+				}
+			}()
+			solverSem <- struct{}{}
+			defer func() { <-solverSem }()
+			ctx, cancel := context.WithTimeout(context.Background(), time.Duration((hi-lo)*(timeoutMs+200)+5000)*time.Millisecond)
+			defer cancel()
+			c := exec.CommandContext(ctx, "z3-new", fmt.Sprintf("-t:%d", timeoutMs), fmt.Sprintf("smt.random_seed=%d", cfg.Seed), file)
+			var out bytes.Buffer
+			c.Stdout = &out
+			c.Stderr = &out
+			c.Run()
+			lines := strings.Split(out.String(), "\n")
+			k := lo
+			for _, ln := range lines {
+				ln = strings.TrimSpace(ln)
+				if ln == "sat" || ln == "unsat" || ln == "unknown" || strings.HasPrefix(ln, "(error") || ln == "timeout" {
+					if k < hi {
+						if ln == "sat" || ln == "unsat" {
+							res[k] = ln
+						} else {
+							res[k] = "unknown"
+						}
+						k++
+					}
+				}
+			}
+		}(lo, hi)
+	}
+	wg.Wait()
+	return res
+}
+
+func runtimeNumCPU() int { return runtime.NumCPU() }
